@@ -29,6 +29,14 @@ def world():
     w['size_field'] = lambda st, pos: st.value_at(pos) if st.value_at(pos) is not None else z3.IntVal(-1)
     w['prefix_untouched'] = lambda st: z3.BoolVal(st.chunks[0][1] == ('existing',))
 
+    for nm in ('tfhd_duration', 'tfhd_size', 'tfhd_flags', 'data_offset', 'first_sample_flags'):
+        w[nm] = z3.Int(nm)
+    for j in range(2):
+        for f in ('duration', 'size', 'flags', 'composition_time_offset'):
+            w[f's{j}_{f}'] = z3.Int(f's{j}_{f}')
+    w['sample_duration'] = lambda smp: smp.f['duration'].val if isinstance(smp.f['duration'], Opt) else smp.f['duration']
+    w['no_duration'] = lambda smp: (smp.f['duration'].isnone if isinstance(smp.f['duration'], Opt) else z3.BoolVal(smp.f['duration'] is None))
+
     def bytes_value(p):
         if isinstance(p, bytes):
             return z3.IntVal(int.from_bytes(p, 'big'))
@@ -68,7 +76,9 @@ def box_contract(cls, fields, requires, version_values=(0, 1), extra_env=None, r
     def sequel_env(eng, env_after, value):
         t = env_after['dest']
         t.cursor, t.reading = 0, True
-        parent = Obj('Mp4Atom', {'tfhd': Opaque('tfhd')})
+        parent = Obj('Mp4Atom', {'tfhd': Obj('TrackFragmentHeaderBox', {
+            'default_sample_duration': z3.Int('tfhd_duration'), 'default_sample_size': z3.Int('tfhd_size'),
+            'default_sample_flags': z3.Int('tfhd_flags')})})
         return {'clz': Opaque('class:' + cls), 'src': t, 'parent': parent, 'self': env_after['self'], 'dest': t,
                 'kwargs': {'options': Obj('Options', {'debug': False, 'log': Opaque('log')}),
                            # what Mp4Atom.parse (box header, not under contract) hands on: the box spans the trace
@@ -349,6 +359,60 @@ def sidx_contract(nrefs):
 
 SIDX = [sidx_contract(0), sidx_contract(1), sidx_contract(2)]
 
+# --- trun with its sample table (k samples; every optional per-sample field governed by the trun flags)
+def trun_samples_contract(k, flags_value):
+    SF = ('duration', 'size', 'flags', 'composition_time_offset')
+
+    def env(w, o):
+        o.f.update(TRUN_FLAGS)
+        samples = [Obj('TrackSample', dict({f: z3.Int(f's{j}_{f}') for f in SF}, parent=o)) for j in range(k)]
+        o.f.update(sample_count=k, samples=PyList(samples), data_offset=z3.Int('data_offset'),
+                   first_sample_flags=z3.Int('first_sample_flags'), flags=flags_value)
+    req = [('data_offset_int32', 'self.data_offset >= -2147483648 and self.data_offset < 2147483648'), u32('first_sample_flags'),
+           ('tfhd_defaults', f'0 <= tfhd_duration and tfhd_duration < {U32} and 0 <= tfhd_size and tfhd_size < {U32} and '
+                             f'0 <= tfhd_flags and tfhd_flags < {U32}')]
+    for j in range(k):
+        for f in SF[:3]:
+            req.append((f's{j}_{f}_u32', f'0 <= s{j}_{f} and s{j}_{f} < {U32}'))
+        req.append((f's{j}_cto_fits_version', f'(-2147483648 <= s{j}_composition_time_offset and s{j}_composition_time_offset < 2147483648) '
+                                              f'if self.version == 1 else (0 <= s{j}_composition_time_offset and s{j}_composition_time_offset < {U32})'))
+    rt = ("result['version'] == old(self.version) and result['flags'] == old(self.flags) and "
+          f"result['sample_count'] == {k} and length(result['samples']) == {k} and "
+          f"result['data_offset'] == (old(self.data_offset) if {has(1)} else 0) and "
+          f"result['first_sample_flags'] == (old(self.first_sample_flags) if {has(4)} else 0)")
+    offset = "result['data_offset']"
+    for j in range(k):
+        smp = f"result['samples'][{j}]"
+        dur = f"(sample_duration({smp}) == s{j}_duration if {has(0x100)} else " \
+              f"(sample_duration({smp}) == tfhd_duration if tfhd_duration != 0 else no_duration({smp})))"
+        size = f"{smp}.size == (s{j}_size if {has(0x200)} else tfhd_size)"
+        fl = f"(s{j}_flags if {has(0x400)} else tfhd_flags)"
+        if j == 0:
+            fl = f"(old(self.first_sample_flags) if {has(4)} else {fl})"
+        cto = f"({smp}.composition_time_offset == s{j}_composition_time_offset if {has(0x800)} else True)"
+        rt += f" and {dur} and {size} and {smp}.flags == {fl} and {cto} and {smp}.index == {j} and {smp}.offset == {offset}"
+        offset = f"({offset} + {smp}.size)"
+    c = box_contract('TrackFragmentRunBox', [], req, extra_env=env, roundtrip=rt)
+    c.variant = f'TrackFragmentRunBox+{k}samples+flags{flags_value:03x}'
+    c.modifies = ['self._first_field_pos']
+    c.mod_types = {}
+    c.ctors = {'TrackSample': lambda eng, a, kw: Obj('TrackSample', dict(kw))}
+    c.canaries = ["result['samples'][0].size == 0"]
+    names = ['version', 'data_offset', 'first_sample_flags', 'tfhd_duration', 'tfhd_size', 'tfhd_flags'] + \
+            [f's{j}_{f}' for j in range(k) for f in SF]
+    c.witness_terms = lambda w: (lambda ev: dict({n: ev(z3.Int(n)) for n in names}, flags=flags_value))
+    return c
+
+
+def _trun_flag_sets():
+    bits = (0x1, 0x4, 0x100, 0x200, 0x400, 0x800)
+    for m in range(64):
+        yield sum(b for j, b in enumerate(bits) if (m >> j) & 1)
+
+
+# every combination of the six trun flags (concrete), two samples each; one sample for the all-fields case
+TRUN_SAMPLES = [trun_samples_contract(2, f) for f in _trun_flag_sets()] + [trun_samples_contract(1, 0xF05)]
+
 # inline helpers reached through self.encode_box_fields(dest)
 INLINE = [Contract(key=f'{MP4}:{cls}.encode_box_fields', props=[], inline=True)
           for cls in ('MovieFragmentHeaderBox', 'MovieExtendsHeaderBox', 'TrackExtendsBox', 'TrackFragmentDecodeTimeBox',
@@ -358,6 +422,8 @@ INLINE = [Contract(key=f'{MP4}:{cls}.encode_box_fields', props=[], inline=True)
           Contract(key='dashlive/utils/binary.py:Binary.__len__', props=[], inline=True),
           Contract(key='dashlive/utils/date_time.py:to_iso_epoch', props=[], inline=True),
           Contract(key='dashlive/utils/date_time.py:from_iso_epoch', props=[], inline=True),
+          Contract(key=f'{MP4}:TrackSample.encode', props=[], inline=True),
+          Contract(key=f'{MP4}:TrackSample.parse', props=[], inline=True),
           Contract(key=f'{MP4}:SegmentReference.encode', props=[], inline=True),
           Contract(key=f'{MP4}:SegmentReference.parse', props=[], inline=True),
           Contract(key=f'{FIO_W}:FieldWriter.writebits', props=[], inline=True),
@@ -542,7 +608,7 @@ FIND_FIRST = Contract(key=f'{MP4}:SampleAuxiliaryInformationOffsetsBox.find_firs
 
 GROUP = Group(
     name='mp4', world=world,
-    contracts=[MFHD, MEHD, TREX, TFDT, TFHD, TRUN, TENC, MDHD] + EMSG + PSSH + SIDX + ENCODE + [BTRT, PASP, TFDT_SETATTR, TRUN_POST_ENCODE] + SAIO + [FIND_FIRST] + INLINE,
+    contracts=[MFHD, MEHD, TREX, TFDT, TFHD, TRUN, TENC, MDHD] + EMSG + PSSH + SIDX + ENCODE + TRUN_SAMPLES + [BTRT, PASP, TFDT_SETATTR, TRUN_POST_ENCODE] + SAIO + [FIND_FIRST] + INLINE,
     assumptions=[
         'C04: FieldWriter.__init__/write and FieldReader.__init__/read/get/skip (dashlive/utils/fio) are analysed as real code '
         '(inlined at every call, for the format codes the boxes under contract use); struct.pack / struct.unpack (stdlib) and '
@@ -554,7 +620,8 @@ GROUP = Group(
         'statement\'s quantifier',
     ],
     trusted=['pyvc/models/trace.py (byte trace, struct.pack/unpack models, byte decomposition)'],
-    not_covered=['all list-bearing boxes (trun, saiz, saio, senc, sidx, pssh, stsd, ...), sample entries, descriptors, '
-                 'the box header (size / uuid / 64-bit size), lazy loading, JSON round trip, tree edits (append/insert/remove '
-                 'and update_size), Mp4Atom.load and Mp4Atom.encode size back-patching'],
+    not_covered=['list-bearing boxes beyond the fixed shapes proved (trun with 1-2 samples under all 64 flag combinations, sidx with '
+                 '0-2 references, pssh with 0-3 key ids): saiz, saio, senc, stsd, sample entries, descriptors, the box header '
+                 'parser (size / uuid / 64-bit size), lazy loading and pre-encoded boxes, JSON round trip, tree edits '
+                 '(append/insert/remove and update_size), Mp4Atom.load'],
 )
